@@ -43,3 +43,12 @@ package model
 //@   property C15
 //@   flags callsites
 //@   callsite WriteString(s) requires cell_or_structure: s == "| " || s == " " || s == "|" || s == "\n" || s == "|---" || (forall k int :: {s[k]} 0 <= k && k < len(s) ==> s[k] != 10 && (s[k] == '|' ==> k >= 1 && s[k-1] == 92))
+
+// ---- C10: page-level metadata refers to the true source page ----
+// A page that already carries its source page number keeps it (a selection of pages 3 and 5 is reported as pages 3
+// and 5, not 1 and 2); a page without a number gets its position.
+//@ func (*Document) AddPage
+//@   property C10
+//@   ensures appended_last: len(d.Pages) == old(len(d.Pages)) + 1 && forall k int :: {d.Pages[k]} 0 <= k && k < old(len(d.Pages)) ==> d.Pages[k] == old(d.Pages)[k]
+//@   ensures keeps_the_stamped_source_page: old(page.Number) != 0 ==> d.Pages[old(len(d.Pages))].Number == old(page.Number)
+//@   ensures numbers_an_unstamped_page_by_position: old(page.Number) == 0 ==> d.Pages[old(len(d.Pages))].Number == old(len(d.Pages)) + 1
